@@ -88,6 +88,50 @@ class Ctx:
         self.model_terms = []  # (label, z3 term) to be evaluated in counter-models
         self.pathdesc = []
         self.refute_hook = None  # callable(ctx, extra_constraints) -> json (concrete input from a model)
+        # manual E-matching: universally quantified facts are kept as triggers on uninterpreted
+        # function symbols and instantiated at every application term that reaches the solver
+        self.triggers = {}  # decl name -> [fn(*args) -> z3 Bool | None]
+        self.seen_apps = {}  # decl name -> [args tuple]
+        self._seen_keys = set()
+        self._scanned = set()
+        self.pc_log = []  # literals asserted by decide()
+        self.assume_log = []  # facts asserted by assume()
+
+    # -- triggers
+    def add_trigger(self, fname, fact_fn):
+        self.triggers.setdefault(fname, []).append(fact_fn)
+        for args in list(self.seen_apps.get(fname, [])):
+            self._fire(fact_fn, args, 0)
+
+    def _fire(self, fn, args, depth):
+        fact = fn(*args)
+        if fact is None:
+            return
+        fact = as_z3_bool(fact)
+        self.solver.add(fact)
+        if depth < 6:
+            self.instantiate(fact, depth=depth + 1)
+
+    def instantiate(self, *exprs, depth=0):
+        stack = [e for e in exprs if z3.is_expr(e)]
+        while stack:
+            e = stack.pop()
+            i = e.get_id()
+            if i in self._scanned:
+                continue
+            self._scanned.add(i)
+            if z3.is_app(e):
+                d = e.decl()
+                if d.kind() == z3.Z3_OP_UNINTERPRETED and e.num_args() > 0:
+                    nm = d.name()
+                    key = (nm, tuple(a.get_id() for a in e.children()))
+                    if key not in self._seen_keys:
+                        self._seen_keys.add(key)
+                        args = tuple(e.children())
+                        self.seen_apps.setdefault(nm, []).append(args)
+                        for fn in list(self.triggers.get(nm, [])):
+                            self._fire(fn, args, depth)
+                stack.extend(e.children())
 
     # -- solver helpers
     def _check(self, *extra):
@@ -107,6 +151,8 @@ class Ctx:
     def assume(self, fact, why=None):
         fact = as_z3_bool(fact)
         self.solver.add(fact)
+        self.assume_log.append(fact)
+        self.instantiate(fact)
         if why:
             self.assumed.append(why)
 
@@ -117,10 +163,13 @@ class Ctx:
         if z3.is_false(cond):
             return False
         k = len(self.trace)
+        self.instantiate(cond)
         if k < len(self.prefix):
             v, forked = self.prefix[k]
             self.trace.append((v, forked))
-            self.solver.add(cond if v else z3.Not(cond))
+            lit = cond if v else z3.Not(cond)
+            self.solver.add(lit)
+            self.pc_log.append(lit)
             return v
         rt, _ = self._check(cond)
         rf, _ = self._check(z3.Not(cond))
@@ -133,7 +182,9 @@ class Ctx:
         else:
             v, forked = can_t, False
         self.trace.append((v, forked))
-        self.solver.add(cond if v else z3.Not(cond))
+        lit = cond if v else z3.Not(cond)
+        self.solver.add(lit)
+        self.pc_log.append(lit)
         return v
 
     def fresh(self, base, sort="int"):
@@ -151,6 +202,7 @@ class Ctx:
         """Record obligation  (path condition and hyps) => goal."""
         goal = as_z3_bool(goal)
         hyps = [as_z3_bool(h) for h in hyps]
+        self.instantiate(goal, *hyps)
         t0 = time.time()
         r, m = self._check(*hyps, z3.Not(goal))
         dt = time.time() - t0
